@@ -120,7 +120,7 @@ Lemma sg_inverse_valid_eq px py pz x y z w vx vy vz t : n4 x y z w = 1 ->
 Proof.
   intros H. unfold sg_inverse, sg_q, sg_p, sg_v, sg_t, so3_inverse, so3_act, so3_rotation, quat_conj, qx, qy, qz, qw.
   cbn [vslice skipn firstn]. mat_unfold.
-  rewrite quat_matrix_unit by (unfold n4 in *; rewrite <- H; ring). reflexivity.
+  rewrite quat_matrix_unit by (unfold n4 in *; rewrite <- H; ring). unfold rot_hom. mat_unfold. list_eq; ring.
 Qed.
 
 Lemma sg_identity_eq : g_identity (SGal3 RS eps) = [0; 0; 0; 0; 0; 0; 1; 0; 0; 0; 0].
